@@ -483,15 +483,19 @@ func (w *vpWorld) symbolicPreState() {
 // globalFacts: consequences of "fewer than one third of the power is faulty" for what any node can
 // observe in one height (they are the conclusions of the composition lemma C01-H4):
 // (G1) all non-nil precommit majorities of the height are for one block; (G4) after a block got +2/3
-// precommits in round r, no later round has a polka for anything else.
+// precommits in round r, neither that round nor a later one has a polka for anything else.
 func (w *vpWorld) globalFacts() bool { return vp.And(w.globalFactParts()...) }
 
 func (w *vpWorld) globalFactParts() []bool {
 	var cj []bool
 	for r1 := 0; r1 < len(w.maj); r1++ {
-		for r2 := r1 + 1; r2 < len(w.maj); r2++ {
+		for r2 := r1; r2 < len(w.maj); r2++ {
 			a, b := w.maj[r1][1], w.maj[r2][1]
-			cj = append(cj, vp.Implies(vp.And(a >= cA, b >= cA), a == b))
+			if r2 > r1 {
+				cj = append(cj, vp.Implies(vp.And(a >= cA, b >= cA), a == b))
+			}
+			// (r2 == r1: the precommits for a were cast on a polka for a in that very round, and one
+			// round cannot have two polkas)
 			p := w.maj[r2][0]
 			cj = append(cj, vp.Implies(a >= cA, vp.Or(p == cNone, p == a)))
 		}
@@ -760,7 +764,7 @@ func (w *vpWorld) postChecks(pre vpSnapshot, ev string) {
 // vpC02Step: one step from an arbitrary state satisfying the invariant.
 func vpC02Step(R int, kind int) {
 	vp.Opt("conccap", 16)
-	w := vpNewWorld(R, vp.Choice("our-validator-index", 2)*4) // we are validator 0, or not a validator at all
+	w := vpNewWorld(R, 0) // we are validator 0 (a node that is not a validator signs nothing)
 	w.symbolicPreState()
 	cj, _ := w.invParts()
 	vp.AssumeAll(cj)
